@@ -128,7 +128,7 @@ impl<T: Alignment> Write for AlignedCursor<T> {
         }
 
         let cap = self.vec.len().saturating_mul(std::mem::size_of::<T>());
-        let rem = cap - self.pos;
+        let rem = cap.saturating_sub(self.pos);
         if rem < len {
             self.vec.resize(
                 (self.pos + len).div_ceil(std::mem::size_of::<T>()),
